@@ -444,12 +444,19 @@ std::string Variable::equivalenceConnectionId(const VariablePtr &variable1, cons
     std::string id;
     if ((variable1 != nullptr) && (variable2 != nullptr)) {
         if (variable1->hasEquivalentVariable(variable2, true)) {
-            auto map = createConnectionMap(variable1, variable2);
-            for (auto &it : map) {
-                id = it.first->pFunc()->equivalentConnectionId(it.second);
-            }
+            // The identifier belongs to the connection between the two components but is stored
+            // with the variable pairs: prefer what this pair holds, otherwise take the identifier
+            // held by another pair of the same connection (a pair added to the connection later
+            // holds none).
+            id = variable1->pFunc()->equivalentConnectionId(variable2);
             if (id.empty()) {
-                id = variable1->pFunc()->equivalentConnectionId(variable2);
+                auto map = createConnectionMap(variable1, variable2);
+                for (auto &it : map) {
+                    id = it.first->pFunc()->equivalentConnectionId(it.second);
+                    if (!id.empty()) {
+                        break;
+                    }
+                }
             }
         }
     }
